@@ -14,3 +14,21 @@ package common
 //@   pure
 //@ func AbstractReaderName
 //@   pure
+
+// ---- C08: reserved words. An identifier is escaped when its C++ spelling (after the case conversion) is reserved.
+//@ func FieldIdentifierName
+//@   property C08
+//@   ensures unreserved_spelling_is_kept: !(lastResult(formatting.ToSnakeCase) in reservedNames) ==> result == lastResult(formatting.ToSnakeCase)
+//@   ensures reserved_spelling_is_escaped: (lastResult(formatting.ToSnakeCase) in reservedNames) ==> result == lastResult(formatting.ToSnakeCase) + "_field"
+//@ func ComputedFieldIdentifierName
+//@   property C08
+//@   ensures unreserved_spelling_is_kept: !(lastResult(formatting.ToPascalCase) in reservedNames) ==> result == lastResult(formatting.ToPascalCase)
+//@   ensures reserved_spelling_is_escaped: (lastResult(formatting.ToPascalCase) in reservedNames) ==> result == lastResult(formatting.ToPascalCase) + "_field"
+//@ func EnumValueIdentifierName
+//@   property C08
+//@   ensures unreserved_spelling_is_kept: !(("k" + lastResult(formatting.ToPascalCase)) in reservedNames) ==> result == "k" + lastResult(formatting.ToPascalCase)
+//@   ensures reserved_spelling_is_escaped: (("k" + lastResult(formatting.ToPascalCase)) in reservedNames) ==> result == "k" + lastResult(formatting.ToPascalCase) + "_value"
+//@ func TypeIdentifierName
+//@   property C08
+//@   ensures unreserved_spelling_is_kept: !(name in reservedNames) ==> result == name
+//@   ensures reserved_spelling_is_escaped: (name in reservedNames) ==> result == name + "_Type"
